@@ -75,6 +75,18 @@ CLAIMED = {
     technique="contract-based deductive verification: refinement of each real response method against a spec function, "
               "z3 QF_BV",
     note=TB + "; Frame through contracts; text content unspecified (str proved total)"),
+ "C12": dict(
+    category="proof",
+    text="Every 24-bit event frame (all 2^23, symbolic) is decoded by the real code with no map, with a map answering any type "
+         "and with a map without entry, and the decoded object is proved to report exactly the source fields, instance type, "
+         "event class, 10 bits of event information and (occupancy, light) decoded data that an independent transcription of "
+         "IEC 62386-103 Table 3 and parts 301/303/304 gives; ambiguous events re-decoded with a map are proved structurally "
+         "identical to a direct decode; the real add_type/get_type are verified for int / address-object / module arguments "
+         "over a dictionary with symbolic keys. The live event registries are compared exhaustively with the tables.",
+    design_ref="DESIGN.md 6 (C12)",
+    technique="contract-based deductive verification: symbolic execution of the real decoder against a table-driven spec "
+              "function, z3 QF_BV",
+    note=TB + "; specs/events.py is the trusted oracle; Frame/Address through contracts, decoder bodies inlined"),
 }
 
 NA_REASON = "check under construction in this round (no obligations built yet); see DESIGN.md section 6"
